@@ -111,13 +111,19 @@ def par_payload(par):
 # ---------------------------------------------------------------------------------------
 def gen_grid(rng, uniform_dirs=False, nd_choices=(16, 24, 36), small=False, nf_range=(10, 26), shape=None):
     nd = rng.choice(nd_choices) if shape is None else shape[1]
-    kind = "uniform" if uniform_dirs else rng.choice(["uniform", "uniform", "uniform", "offset", "jitter"])
+    kind = "uniform" if uniform_dirs else rng.choice(["uniform", "uniform", "uniform", "offset", "jitter", "wrapped", "pm180"])
     step = 360.0 / nd
     if kind == "uniform":
         d = [j * step for j in range(nd)]
     elif kind == "offset":
         off = rng.choice([step / 2, 5.0, step / 4])
         d = [off + j * step for j in range(nd)]
+    elif kind == "wrapped":
+        # the axis starts mid-circle and wraps through north: 200, ..., 350, 0, ..., 190
+        j0 = rng.randrange(1, nd)
+        d = [((j0 + j) * step) % 360.0 for j in range(nd)]
+    elif kind == "pm180":
+        d = [-180.0 + j * step for j in range(nd)]
     else:
         d = [j * step + C.dyadic(rng, -0.3, 0.3, 6) * step for j in range(nd)]
         d[0] = abs(d[0])
